@@ -1,5 +1,6 @@
 import ClaripyProofs.Lemmas.VSA.Members
 import ClaripyProofs.Lemmas.VSA.Split
+import ClaripyProofs.Lemmas.VSA.Signed
 /-! `eval(n)` (unsigned) lists exactly the first `n` members, in member-list order. -/
 namespace Claripy.VSA
 
@@ -61,5 +62,221 @@ theorem evalLoop_spec (stride n U : Nat) (hs : 0 < stride) :
         unfold prog; simp
       · have : n - acc.length = 0 := by omega
         rw [this, List.take_zero, List.append_nil]
+
+theorem prog_add (stride : Nat) : ∀ (c1 L c2 : Nat),
+    prog stride L (c1 + c2) = prog stride L c1 ++ prog stride (L + c1 * stride) c2 := by
+  intro c1
+  induction c1 with
+  | zero => intro L c2; simp [prog]
+  | succ c ih =>
+    intro L c2
+    have e : c + 1 + c2 = (c + c2) + 1 := by omega
+    rw [e, prog_succ, prog_succ, ih (L + stride) c2, List.cons_append]
+    have : L + stride + c * stride = L + (c + 1) * stride := by rw [Nat.succ_mul]; omega
+    rw [this]
+
+theorem prog_length (stride L c : Nat) : (prog stride L c).length = c := by simp [prog]
+
+/-- with `n = 0` the loop returns its accumulator -/
+theorem foldl_eval_zero (stride : Nat) (bs : List (Int × Int)) :
+    bs.foldl (fun results p => evalLoop stride 0 p.2 0 p.1 results) [] = [] := by
+  induction bs with
+  | nil => rfl
+  | cons q qs ih => simp only [List.foldl_cons]; unfold evalLoop; exact ih
+
+theorem renorm_bounds_nowrap (s : SI) (hs : s.WF) (hnb : s.bottom = false) (hle : s.lb ≤ s.ub) :
+    s.renorm.lb = s.lb ∧ s.renorm.ub = s.ub := by
+  obtain ⟨_, hl, hu, _⟩ := hs
+  unfold SI.renorm
+  rw [hnb]
+  simp only [Bool.false_eq_true, if_false]
+  rw [new_eq, imod_of_lt _ _ hl, imod_of_lt _ _ hu]
+  split
+  · exact ⟨rfl, rfl⟩
+  · split
+    · rename_i h1 h2
+      have h3 := h2.1
+      rw [succ_mod_cases _ _ hu] at h3
+      split_ifs at h3
+      · omega
+      · show 0 = s.lb ∧ 2 ^ s.bits - 1 = s.ub
+        omega
+    · exact ⟨rfl, rfl⟩
+
+/-- the member list as integers is the progression from the lower bound, reduced modulo `2^bits` -/
+theorem members_cast (s : SI) (hnb : s.bottom = false) (hz : s.stride ≠ 0) :
+    s.members.map (fun (v : Nat) => (v : Int)) =
+      (List.range (s.span / s.stride + 1)).map fun k => (((s.lb + k * s.stride) % 2 ^ s.bits : Nat) : Int) := by
+  unfold SI.members
+  rw [hnb]
+  simp only [Bool.false_eq_true, if_false, if_neg hz, List.map_map]
+  rfl
+
+/-- **`eval(n)` (unsigned) returns exactly the first `n` members** in the order lower bound, lower bound + stride, … -/
+theorem eval_exact (s : SI) (n : Nat) (l : List Int) (hs : s.WF) (hnb : s.bottom = false) (h : s.eval n false = .ok l) :
+    l = (s.members.take n).map fun (v : Nat) => (v : Int) := by
+  have hwf := hs
+  obtain ⟨h0, hl, hu, hst⟩ := hs
+  have hm := two_pow_pos' s.bits
+  unfold SI.eval at h
+  rw [hnb] at h
+  simp only [Bool.false_eq_true, if_false] at h
+  by_cases hc : s.stride = 0 ∧ n > 0
+  · rw [if_pos hc] at h
+    have : l = [(s.lb : Int)] := by cases h; rfl
+    subst this
+    unfold SI.members
+    rw [hnb]
+    simp only [Bool.false_eq_true, if_false, if_pos hc.1]
+    obtain ⟨k, hk⟩ : ∃ k, n = k + 1 := ⟨n - 1, by omega⟩
+    rw [hk]; simp
+  rw [if_neg hc] at h
+  -- the unsigned bounds
+  by_cases hn0 : n = 0
+  · subst hn0
+    cases hb : s.unsignedBounds with
+    | error e => rw [hb] at h; cases h
+    | ok bs =>
+      rw [hb] at h
+      have : l = bs.foldl (fun results p => evalLoop s.stride 0 p.2 0 p.1 results) [] := by cases h; rfl
+      rw [this, foldl_eval_zero]; rfl
+  have hz : s.stride ≠ 0 := by intro hh; exact hc ⟨hh, by omega⟩
+  have hsp : 0 < s.stride := Nat.pos_of_ne_zero hz
+  have hspan := span_eq s hwf
+  rw [List.map_take, members_cast s hnb hz, hspan]
+  by_cases hwrap : s.ub < s.lb
+  · -- wrapping: one or two pieces
+    have hsplit := ssplit_wrap s hwf hwrap
+    simp only [] at hsplit
+    generalize hK : (2 ^ s.bits - 1 - s.lb) - (2 ^ s.bits - 1 - s.lb) % s.stride = K at hsplit
+    have hK1 : s.stride ∣ K := by rw [← hK]; exact Nat.dvd_sub_mod _
+    have hK2 : 2 ^ s.bits - 1 - s.lb < K + s.stride := by
+      have := Nat.mod_lt (2 ^ s.bits - 1 - s.lb) hsp
+      have := Nat.mod_le (2 ^ s.bits - 1 - s.lb) s.stride
+      omega
+    have hK3 : K ≤ 2 ^ s.bits - 1 - s.lb := by rw [← hK]; exact Nat.sub_le _ _
+    have hlk : s.lb + K < 2 ^ s.bits := by omega
+    have hcds : cd (2 ^ s.bits) s.lb s.ub = s.ub + 2 ^ s.bits - s.lb := by unfold cd; split_ifs <;> omega
+    obtain ⟨c1', hc1'⟩ := hK1
+    have hKdiv : K / s.stride = c1' := by rw [hc1', Nat.mul_div_cancel_left _ hsp]
+    -- bounds of the first piece
+    have hAb := new_bounds s.bits s.stride s.lb (s.lb + K) hl hlk (by
+      rintro ⟨h1, _⟩
+      rw [succ_mod_cases _ _ hlk] at h1
+      split_ifs at h1 <;> omega)
+    have hcntA : cnt s.stride (s.lb + K) s.lb = c1' + 1 := by
+      unfold cnt; rw [if_pos (by omega)]
+      have : s.lb + K - s.lb = K := by omega
+      rw [this, hKdiv]
+    -- the members below the pole
+    have hlow : ∀ k, k < c1' + 1 → (s.lb + k * s.stride) % 2 ^ s.bits = s.lb + k * s.stride := by
+      intro k hk
+      apply Nat.mod_eq_of_lt
+      have : k * s.stride ≤ c1' * s.stride := Nat.mul_le_mul_right _ (by omega)
+      rw [Nat.mul_comm c1' s.stride, ← hc1'] at this
+      omega
+    by_cases hbr : K + s.stride > cd (2 ^ s.bits) s.lb s.ub
+    · rw [if_pos hbr] at hsplit
+      have hb : s.unsignedBounds = .ok [((s.lb : Int), ((s.lb + K : Nat) : Int))] := by
+        unfold SI.unsignedBounds; rw [hsplit]
+        simp only [bind, Except.bind, pure, Except.pure, List.map_cons, List.map_nil, hAb.1, hAb.2]
+      rw [hb] at h
+      have hl' : l = evalLoop s.stride n ((s.lb + K : Nat) : Int) n (s.lb : Int) [] := by cases h; rfl
+      rw [hl', evalLoop_spec s.stride n (s.lb + K) hsp n s.lb [] (by simp), hcntA]
+      simp only [List.nil_append, List.length_nil, Nat.sub_zero]
+      have hcount : cd (2 ^ s.bits) s.lb s.ub / s.stride + 1 = c1' + 1 := by
+        have h1 : c1' ≤ cd (2 ^ s.bits) s.lb s.ub / s.stride := by
+          apply (Nat.le_div_iff_mul_le hsp).2
+          rw [Nat.mul_comm, ← hc1']; omega
+        have h2 : cd (2 ^ s.bits) s.lb s.ub / s.stride < c1' + 1 := by
+          apply (Nat.div_lt_iff_lt_mul hsp).2
+          rw [Nat.mul_comm, Nat.mul_succ, ← hc1']; omega
+        omega
+      rw [hcount]
+      congr 1
+      unfold prog
+      apply List.map_congr_left
+      intro k hk
+      rw [hlow k (List.mem_range.1 hk)]
+    · rw [if_neg hbr] at hsplit
+      have hbLeq : (s.lb + K + s.stride) % 2 ^ s.bits = s.lb + K + s.stride - 2 ^ s.bits := by
+        have : s.lb + K + s.stride = (s.lb + K + s.stride - 2 ^ s.bits) + 2 ^ s.bits := by omega
+        rw [this, Nat.add_mod_right, Nat.mod_eq_of_lt (by omega)]
+        omega
+      rw [hbLeq] at hsplit
+      generalize hbl : s.lb + K + s.stride - 2 ^ s.bits = bl at hsplit
+      have hblt : bl < 2 ^ s.bits := by omega
+      have hble : bl ≤ s.ub := by omega
+      have hBb := new_bounds s.bits s.stride bl s.ub hblt hu (by
+        rintro ⟨h1, _⟩
+        rw [succ_mod_cases _ _ hu] at h1
+        split_ifs at h1 <;> omega)
+      have hb : s.unsignedBounds = .ok [((s.lb : Int), ((s.lb + K : Nat) : Int)), ((bl : Int), (s.ub : Int))] := by
+        unfold SI.unsignedBounds; rw [hsplit]
+        simp only [bind, Except.bind, pure, Except.pure, List.map_cons, List.map_nil, hAb.1, hAb.2, hBb.1, hBb.2]
+      rw [hb] at h
+      have hl' : l = evalLoop s.stride n (s.ub : Int) n (bl : Int)
+          (evalLoop s.stride n ((s.lb + K : Nat) : Int) n (s.lb : Int) []) := by cases h; rfl
+      rw [hl', evalLoop_spec s.stride n (s.lb + K) hsp n s.lb [] (by simp), hcntA]
+      simp only [List.nil_append, List.length_nil, Nat.sub_zero]
+      rw [evalLoop_spec s.stride n s.ub hsp n bl _ (by omega)]
+      -- count of the second piece
+      generalize hc2 : cnt s.stride s.ub bl = c2
+      have hc2' : c2 = (s.ub - bl) / s.stride + 1 := by rw [← hc2]; unfold cnt; rw [if_pos hble]
+      have hcount : cd (2 ^ s.bits) s.lb s.ub / s.stride + 1 = (c1' + 1) + c2 := by
+        have e : cd (2 ^ s.bits) s.lb s.ub = (s.ub - bl) + s.stride * (c1' + 1) := by
+          rw [Nat.mul_succ, ← hc1']; omega
+        rw [e, Nat.add_mul_div_left _ _ hsp, hc2']; omega
+      rw [hcount, List.range_add, List.map_append, List.map_map, List.take_append]
+      have hP1 : (List.range (c1' + 1)).map (fun k => (((s.lb + k * s.stride) % 2 ^ s.bits : Nat) : Int)) =
+          prog s.stride s.lb (c1' + 1) := by
+        unfold prog
+        apply List.map_congr_left
+        intro k hk
+        rw [hlow k (List.mem_range.1 hk)]
+      have hP2 : (List.range c2).map ((fun k => (((s.lb + k * s.stride) % 2 ^ s.bits : Nat) : Int)) ∘ fun x => c1' + 1 + x) =
+          prog s.stride bl c2 := by
+        unfold prog
+        apply List.map_congr_left
+        intro j hj
+        have hj' := List.mem_range.1 hj
+        simp only [Function.comp]
+        congr 1
+        have e1 : s.lb + (c1' + 1 + j) * s.stride = (bl + j * s.stride) + 2 ^ s.bits := by
+          rw [Nat.add_mul, Nat.succ_mul, Nat.mul_comm c1' s.stride, ← hc1']; omega
+        have e2 : bl + j * s.stride < 2 ^ s.bits := by
+          have : j * s.stride ≤ (s.ub - bl) / s.stride * s.stride := Nat.mul_le_mul_right _ (by omega)
+          have := Nat.div_mul_le_self (s.ub - bl) s.stride
+          omega
+        rw [e1, Nat.add_mod_right, Nat.mod_eq_of_lt e2]
+      rw [hP1, hP2, prog_length]
+      congr 2
+      rw [List.length_take, prog_length]
+      omega
+  · -- not wrapping: one piece, a copy
+    have hsplit : s.ssplit = .ok [s.renorm] := by unfold SI.ssplit; rw [if_neg hwrap]; rfl
+    obtain ⟨hr1, hr2⟩ := renorm_bounds_nowrap s hwf hnb (by omega)
+    have hb : s.unsignedBounds = .ok [((s.lb : Int), (s.ub : Int))] := by
+      unfold SI.unsignedBounds; rw [hsplit]
+      simp only [bind, Except.bind, pure, Except.pure, List.map_cons, List.map_nil, hr1, hr2]
+    rw [hb] at h
+    have hl' : l = evalLoop s.stride n (s.ub : Int) n (s.lb : Int) [] := by cases h; rfl
+    rw [hl', evalLoop_spec s.stride n s.ub hsp n s.lb [] (by simp)]
+    simp only [List.nil_append, List.length_nil, Nat.sub_zero]
+    have hcds : cd (2 ^ s.bits) s.lb s.ub = s.ub - s.lb := by unfold cd; split_ifs <;> omega
+    have hcnt : cnt s.stride s.ub s.lb = cd (2 ^ s.bits) s.lb s.ub / s.stride + 1 := by
+      unfold cnt; rw [if_pos (by omega), hcds]
+    rw [hcnt]
+    congr 1
+    unfold prog
+    apply List.map_congr_left
+    intro k hk
+    have hk' := List.mem_range.1 hk
+    congr 1
+    symm
+    apply Nat.mod_eq_of_lt
+    have : k * s.stride ≤ cd (2 ^ s.bits) s.lb s.ub / s.stride * s.stride := Nat.mul_le_mul_right _ (by omega)
+    have := Nat.div_mul_le_self (cd (2 ^ s.bits) s.lb s.ub) s.stride
+    omega
 
 end Claripy.VSA
